@@ -122,17 +122,26 @@ func (s *Sim) noTrackerCheck(what string, t *simTable) {
 // it queues on the root lock and must not undo anything the commit publishes. RunTxn waits for it after Commit returned.
 func (s *Sim) RegistrationMonitor(ctl *hookctl.Ctl) func(point, handle string) {
 	return func(point, handle string) {
-		if point != "commit.rootLocked" || handle != s.Handle || s.regPending != nil || s.Failed {
+		if point != "commit.rootLocked" || handle != s.Handle {
+			return
+		}
+		// (the collector commits under the same handle name from its own goroutine)
+		s.regMu.Lock()
+		if s.regPending != nil {
+			s.regMu.Unlock()
 			return
 		}
 		s.regTick++
 		if s.regTick%5 != 0 {
+			s.regMu.Unlock()
 			return
 		}
 		name := fmt.Sprintf("reg%d", s.regTick)
 		hN := fmt.Sprintf("%s-reg%d", s.Handle, s.regTick)
 		done := make(chan struct{})
 		s.regPending = done
+		s.registrations++
+		s.regMu.Unlock()
 		db := s.DB
 		go func() {
 			defer close(done)
@@ -145,14 +154,20 @@ func (s *Sim) RegistrationMonitor(ctl *hookctl.Ctl) func(point, handle string) {
 		for i := 0; i < 200; i++ {
 			runtime.Gosched()
 		}
-		s.registrations++
 	}
 }
 
 // waitRegistration is called after Commit returned.
 func (s *Sim) waitRegistration() {
-	if s.regPending != nil {
-		<-s.regPending
-		s.regPending = nil
+	s.regMu.Lock()
+	p := s.regPending
+	s.regMu.Unlock()
+	if p != nil {
+		<-p
+		s.regMu.Lock()
+		if s.regPending == p {
+			s.regPending = nil
+		}
+		s.regMu.Unlock()
 	}
 }
